@@ -13,7 +13,7 @@ had it; a table without columns prints ` ()` whether or not the parentheses were
 commas, the `FROM` that `UPDATE` swallows in dialects without `UPDATE … FROM`, the keyword that a
 column option swallows before its dialect test fails, and `LIMIT ALL` of `DELETE` are dropped;
 numbers inside data types are re-rendered in decimal (`VARCHAR(010)` prints `VARCHAR(10)`), type
-names in the spelling of `Display for DataType`, custom-type modifiers as their raw text.
+names in the spelling of `Display for DataType`, custom-type modifiers as the SQL text they are stored as.
 -/
 namespace SqlVerif.Dml
 open SqlVerif.Pratt SqlVerif.Query SqlVerif.Gen
@@ -142,11 +142,19 @@ def dtNameP : List SqlVerif.DTy.Ident → List Piece
   | [i] => [dtIdentP false i]
   | i :: rest => dtIdentP false i :: symP false .Period :: dtNameP rest
 
+/-- the token a custom-type modifier (stored as SQL text) is read back as: a number when it consists of
+digits, a string literal when it is written between single quotes (payload without embedded quotes
+assumed), else a word -/
+def modTok (m : W) : Tok :=
+  if !m.isEmpty && m.all (fun ch => 48 ≤ ch && ch ≤ 57) then .number m false
+  else if 2 ≤ m.length && m.head? == some 39 && m.getLast? == some 39 then .sqs ((m.drop 1).dropLast)
+  else .word m none (kwLookup m)
+
 /-- raw custom-type modifiers, `", "` between them -/
 def modsP : List W → List Piece
   | [] => []
-  | [m] => [⟨false, .word m none none, some m⟩]
-  | m :: rest => ⟨false, .word m none none, some m⟩ :: symP false .Comma :: spaced (modsP rest)
+  | [m] => [⟨false, modTok m, some m⟩]
+  | m :: rest => ⟨false, modTok m, some m⟩ :: symP false .Comma :: spaced (modsP rest)
 
 /-- `'label'` list of ENUM / SET -/
 def labelsP : List W → List Piece
